@@ -42,20 +42,27 @@ def run(c):
                    "HashBuf KIND=%s CW=%d: counter equals the amount absorbed for every length across low-word wraps (CounterExact), carry into the high word, +1/+2 block count" % (kind, cw))
     apalache_blake_counter(c)
     traces = 0
-    for build in ["std-rel", "std-dbg"]:
-        binary = vlib.build(build)
-        for fam, module in FAMS:
+    import json
+    # identical (input, outcome) events of the release and the debug build are validated once; an event that differs between
+    # the builds (e.g. an overflow panic in debug) is a distinct outcome and is validated - and rejected - by itself
+    for fam, module in FAMS:
+        uniq = {}
+        for build in ["std-rel", "std-dbg"]:
+            binary = vlib.build(build)
             trace = os.path.join(wd, "c17-%s-%s.ndjson" % (fam, build))
             vlib.run_harness(binary, ["c17", "--family", fam, "--seed", str(c.seed), "--tier", c.tier], out=trace)
             recs = vlib.read_ndjson(trace)
             os.remove(trace)
-
-            def mutate(e):
-                e["out"][1] ^= 0x20
-            vlib.validate_stateless(c, module, recs, lambda e: {"ev": e["ev"], "alg": e["alg"], "tag": e["tag"], "res": e["res"].split(":")[0], "build": build},
-                                    mutate, "counter fast-forward %s (%s)" % (fam, build), timeout=6000, workers=12)
             traces += len(recs)
             c.add_events(recs, key=lambda e: (e["alg"], e["base"], e["rest"]), sample=1)
+            for e in recs:
+                e["build"] = build
+                uniq.setdefault(json.dumps({k: v for k, v in e.items() if k != "build"}, sort_keys=True), e)
+
+        def mutate(e):
+            e["out"][1] ^= 0x20
+        vlib.validate_stateless(c, module, list(uniq.values()), lambda e: {"ev": e["ev"], "alg": e["alg"], "tag": e["tag"], "res": e["res"].split(":")[0], "build": e["build"]},
+                                mutate, "counter fast-forward %s" % fam, timeout=6000, workers=12)
     # real streaming across the first boundary, validated through a checkpoint
     binary = vlib.build("std-rel")
     for which, module in STREAMS_Q + (STREAMS_T if c.thorough else []):
